@@ -17,7 +17,7 @@ class TlcError(Exception):
 
 
 def java_cmd(module, cfg, workers=1, extra=(), metadir=None):
-    return ["java", "-Xss512m", "-Xmx6g", "-XX:+UseParallelGC", "-cp", JAR, "tlc2.TLC",
+    return ["java", "-Xss512m", "-Xmx3g", "-XX:+UseParallelGC", "-cp", JAR, "tlc2.TLC",
             "-workers", str(workers), "-metadir", metadir, "-noGenerateSpecTE",
             "-config", cfg, *extra, module]
 
@@ -40,6 +40,16 @@ def run_tlc(module, cfg=None, workers=1, env=None, timeout=3600, extra=()):
 
 
 # ---------------------------------------------------------------- TLA+ value printing parser
+def freeze(v):
+    if isinstance(v, list):
+        return tuple(freeze(x) for x in v)
+    if isinstance(v, dict):
+        return tuple(sorted((k, freeze(x)) for k, x in v.items()))
+    if isinstance(v, set):
+        return frozenset(freeze(x) for x in v)
+    return v
+
+
 def parse_tla(s):
     """parse a printed TLA+ value (tuples <<>>, sets {}, strings, ints, TRUE/FALSE, records)"""
     pos = 0
@@ -76,7 +86,7 @@ def parse_tla(s):
                 return set()
             while True:
                 v = val()
-                items.append(v if not isinstance(v, list) else tuple(v))
+                items.append(freeze(v))
                 ws()
                 if s[pos] == "}":
                     pos += 1
